@@ -81,7 +81,13 @@ def check(run: Run) -> None:
             cfg = CFG(fn)
             for r in cfg.returns():
                 conds = conditions_for(fn, r.ast) or []
-                if cls == "Pow" and not any(not isinstance(t, str) and t is tests[0].test and p is True for t, p in conds):
+                def established(t, p) -> bool:
+                    """the path condition (t, p) says that the admission test holds: `if test:` taken, or `if not test: raise` passed"""
+                    if isinstance(t, str) or t is not tests[0].test:
+                        return False
+                    negated = isinstance(t, ast.UnaryOp) and isinstance(t.op, ast.Not)
+                    return (p is True and not negated) or (p is False and negated)
+                if cls == "Pow" and not any(established(t, p) for t, p in conds):
                     run.violate("S3", f"{mod.name}:{cls}:unguarded-return", mod, r.ast, f"the {cls} handler returns a result without having tested that the {what} is dimensionless")
     # S4
     ud = h["Derivative"]
@@ -133,8 +139,13 @@ def check(run: Run) -> None:
     # Pow: the dimension is raised to the exponent's *value*
     for cfg2, r, fe, de in __import__("sa.rules.collectors", fromlist=["returned_pairs"]).returned_pairs(h["Pow"]):
         run.ob("S6", "Pow:dimension-exponent")
-        if not (isinstance(fe, ast.BinOp) and isinstance(de, ast.BinOp) and isinstance(fe.op, ast.Pow) and isinstance(de.op, ast.Pow) and norm(fe.right) == norm(de.right)):
+        if not (isinstance(fe, ast.BinOp) and isinstance(de, ast.BinOp) and isinstance(fe.op, ast.Pow) and isinstance(de.op, ast.Pow)
+                and __import__("sa.rules.collectors", fromlist=["same_exponent"]).same_exponent(cfg2, r, fe.right, de.right)):
             run.violate("S6", f"{mod.name}:_collect_pow:exponent", mod, r.ast, f"Pow handler returns ({norm(fe, 40)}, {norm(de, 40)}): value and dimension are not raised to the same exponent value")
+        elif not any(c_.split(".")[-1] in ("nsimplify", "Rational") for c_ in cfg2.slice(r, [de.right]).calls):
+            run.violate("S6", f"{mod.name}:_collect_pow:float-exponent", mod, r.ast,
+                        "the dimension is raised to the exponent as written: a float exponent (area**0.5, meter**2.0) gives Dimension(length**1.0), which SymPy (Float(1.0) != 1) does "
+                        "not consider equivalent to length - the verdict depends on how the number is written; the dimension's exponent must be made exact (nsimplify / Rational)")
     # leaves
     for cls, attr in (("SymQuantity", "dimension"), ("Prefix", None)):
         fn = h[cls]
